@@ -390,6 +390,8 @@ pub struct FxPlan {
     pub app_console: bool,
     /// Use the deprecated 'date' column name for the settlement date.
     pub app_legacy_date: bool,
+    /// --date-fmt: 0 = default ([year]-[month]-[day]); 1 = [month]/[day]/[year]; 2 = [day].[month].[year]
+    pub app_date_fmt: u8,
     pub net_faults: Vec<Option<String>>,
     /// The server's date when it differs from the process's clock (a clock set ahead): the
     /// snapshot SimBoC serves is the one of this day. None = the process's today.
@@ -443,19 +445,33 @@ pub fn app_csv(rows: &[AppRow]) -> String {
     app_csv_from(rows, 0, false)
 }
 
+pub const DATE_FMTS: [&str; 3] = ["[year]-[month]-[day]", "[month]/[day]/[year]", "[day].[month].[year]"];
+
+fn fmt_date(d: Date, date_fmt: u8) -> String {
+    match date_fmt {
+        1 => format!("{:02}/{:02}/{}", d.month() as u8, d.day(), d.year()),
+        2 => format!("{:02}.{:02}.{}", d.day(), d.month() as u8, d.year()),
+        _ => d.to_string(),
+    }
+}
+
 pub fn app_csv_from(rows: &[AppRow], first_index: usize, legacy_date: bool) -> String {
+    app_csv_fmt(rows, first_index, legacy_date, 0)
+}
+
+pub fn app_csv_fmt(rows: &[AppRow], first_index: usize, legacy_date: bool, date_fmt: u8) -> String {
     let mut s = format!("security,trade date,{},action,shares,amount/share,commission,currency,exchange rate,commission currency,commission exchange rate,memo\n", if legacy_date { "date" } else { "settlement date" });
     if first_index == 0 {
         // an opening CAD position long before any calendar, so that Sell rows never over-sell
-        s.push_str("FOO,2000-01-03,2000-01-05,Buy,1000000,1.00,,,,,,seed\n");
+        s.push_str(&format!("FOO,{},{},Buy,1000000,1.00,,,,,,seed\n", fmt_date(ymd(2000, 1, 3), date_fmt), fmt_date(ymd(2000, 1, 5), date_fmt)));
     }
     for (i, r) in rows.iter().enumerate() {
         let i = i + first_index;
         let trade = pd(&r.trade);
         s.push_str(&format!(
             "FOO,{},{},{},{},{},{},{},{},{},{},{}\n",
-            trade,
-            trade + Duration::days(r.settle_off),
+            fmt_date(trade, date_fmt),
+            fmt_date(trade + Duration::days(r.settle_off), date_fmt),
             if r.roc { "RoC" } else if r.sell { "Sell" } else { "Buy" },
             if r.roc { "" } else if r.sell { "1" } else { "1000" },
             if r.roc { "0.001" } else { "10.00" },
@@ -476,7 +492,7 @@ pub fn run_fx_process(plan: FxPlan) -> FxObs {
     let mut env = ProcEnv::new(plan.hash_seed, plan.today);
     env.knobs = plan.knobs.clone();
     env.fs_faults = plan.fs_faults.to_faults();
-    let FxPlan { data, today, published_today, force, cache, mem_in, lookups, app_rows, app_files, app_console, app_legacy_date, net_faults, server_today, .. } = plan;
+    let FxPlan { data, today, published_today, force, cache, mem_in, lookups, app_rows, app_files, app_console, app_legacy_date, app_date_fmt, net_faults, server_today, .. } = plan;
     let out: ProcOut<Inner> = run_process(&env, move || {
         use acb::fx::io::{CsvRatesCache, InMemoryRatesCache, RateLoader, RatesCache};
         use acb::util::rw::WriteHandle;
@@ -522,17 +538,20 @@ pub fn run_fx_process(plan: FxPlan) -> FxObs {
                 let readers: Vec<acb::util::rw::DescribedReader> = rows
                     .chunks(per)
                     .enumerate()
-                    .map(|(fi, chunk)| acb::util::rw::DescribedReader::from_string(format!("sim{}.csv", fi), app_csv_from(chunk, fi * per, app_legacy_date)))
+                    .map(|(fi, chunk)| acb::util::rw::DescribedReader::from_string(format!("sim{}.csv", fi), app_csv_fmt(chunk, fi * per, app_legacy_date, app_date_fmt)))
                     .collect();
+                let parse_opts = acb::portfolio::io::tx_csv::TxCsvParseOptions { date_format: if app_date_fmt == 0 { None } else { Some(acb::util::date::parse_dyn_date_format(DATE_FMTS[app_date_fmt as usize % 3]).expect("harness date format")) } };
                 if app_console {
-                    let res = block_on(acb::app::run_acb_app_to_console(readers, std::collections::HashMap::new(), acb::app::Options::default(), loader, err.clone()));
+                    let mut options = acb::app::Options::default();
+                    options.csv_parse_options = acb::portfolio::io::tx_csv::TxCsvParseOptions { date_format: parse_opts.date_format.clone() };
+                    let res = block_on(acb::app::run_acb_app_to_console(readers, std::collections::HashMap::new(), options, loader, err.clone()));
                     let reqs = log.borrow().clone();
                     return (obs, Some(res.map(|_| vec![]).map_err(|_| "run_acb_app_to_console returned Err".to_string())), reqs, MemState::new());
                 }
                 let res = block_on(acb::app::run_acb_app_to_delta_models(
                     readers,
                     std::collections::HashMap::new(),
-                    &acb::portfolio::io::tx_csv::TxCsvParseOptions::default(),
+                    &parse_opts,
                     loader,
                     err.clone(),
                 ));
@@ -621,6 +640,7 @@ impl Reference {
             app_files: 1,
             app_console: false,
             app_legacy_date: false,
+            app_date_fmt: 0,
             net_faults: vec![],
             server_today: None,
             fs_faults: FsFaultSpec::default(),
